@@ -94,7 +94,9 @@ func (h *Handler) findOrCreate(clientID []byte, mac net.HardwareAddr, name strin
 			lease.Name = name
 		}
 		// if lease.subnet.LAN.IP.Mask(lease.subnet.LAN.Mask).Equal(subnet.LAN.IP.Mask(subnet.LAN.Mask)) &&
-		if lease.subnet.LAN == subnet.LAN &&
+		// (the subnet itself, not its prefix: in the default configuration the netfilter subnet is the whole home LAN,
+		// so both subnets have the same prefix and differ in gateway and DNS only)
+		if lease.subnet == subnet &&
 			bytes.Equal(lease.Addr.MAC, mac) {
 			return lease
 		}
